@@ -1,6 +1,8 @@
 package s1028
 
 import (
+	"go/ast"
+
 	"honnef.co/go/tools/analysis/code"
 	"honnef.co/go/tools/analysis/edit"
 	"honnef.co/go/tools/analysis/facts/generated"
@@ -28,10 +30,7 @@ var SCAnalyzer = lint.InitializeAnalyzer(&lint.Analyzer{
 
 var Analyzer = SCAnalyzer.Analyzer
 
-var (
-	checkErrorsNewSprintfQ = pattern.MustParse(`(CallExpr (Symbol "errors.New") [(CallExpr (Symbol "fmt.Sprintf") args)])`)
-	checkErrorsNewSprintfR = pattern.MustParse(`(CallExpr (SelectorExpr (Ident "fmt") (Ident "Errorf")) args)`)
-)
+var checkErrorsNewSprintfQ = pattern.MustParse(`(CallExpr (Symbol "errors.New") [(CallExpr (Symbol "fmt.Sprintf") args)])`)
 
 func run(pass *analysis.Pass) (any, error) {
 	for node, m := range code.Matches(pass, checkErrorsNewSprintfQ) {
@@ -39,11 +38,16 @@ func run(pass *analysis.Pass) (any, error) {
 			report.Report(pass, node, "should use fmt.Errorf(...) instead of errors.New(fmt.Sprintf(...))", report.FilterGenerated())
 			continue
 		}
-		edits := code.EditMatch(pass, node, m, checkErrorsNewSprintfR)
+		args := m.State["args"].([]ast.Expr)
+		repl := &ast.CallExpr{
+			Fun:      &ast.SelectorExpr{X: ast.NewIdent("fmt"), Sel: ast.NewIdent("Errorf")},
+			Args:     args,
+			Ellipsis: code.CallEllipsis(node, args),
+		}
 		// TODO(dh): the suggested fix may leave an unused import behind
 		report.Report(pass, node, "should use fmt.Errorf(...) instead of errors.New(fmt.Sprintf(...))",
 			report.FilterGenerated(),
-			report.Fixes(edit.Fix("Use fmt.Errorf", edits...)))
+			report.Fixes(edit.Fix("Use fmt.Errorf", edit.ReplaceWithNode(pass.Fset, node, repl))))
 	}
 	return nil, nil
 }
